@@ -70,6 +70,9 @@ type c13Spec struct {
 	Shard  int    `json:"shard"`
 	Shards int    `json:"shards"`
 	MaxLen int    `json:"max_len"`
+	// Case: the alphabet {%,_,a,A,.}: patterns and texts that differ only in the case of a letter, all evaluated in
+	// one process in sequence (the rewriting caches are process-wide)
+	Case bool `json:"letter_case,omitempty"`
 }
 
 func (c13) Plan(tier string) []fw.Unit {
@@ -85,8 +88,11 @@ func (c13) Plan(tier string) []fw.Unit {
 			ml, sh = 4, 16 // a false start after '%' needs a literal of two characters: pattern and text of length 4
 		}
 		for s := 0; s < sh; s++ {
-			us = append(us, fw.Unit{Check: "C13", Kind: "like", Tier: tier, Spec: fw.Spec(c13Spec{ctx, s, sh, ml})})
+			us = append(us, fw.Unit{Check: "C13", Kind: "like", Tier: tier, Spec: fw.Spec(c13Spec{Ctx: ctx, Shard: s, Shards: sh, MaxLen: ml})})
 		}
+	}
+	for _, ctx := range c13Contexts {
+		us = append(us, fw.Unit{Check: "C13", Kind: "like", Tier: tier, Spec: fw.Spec(c13Spec{Ctx: ctx, Shard: 0, Shards: 1, MaxLen: 3, Case: true})})
 	}
 	us = append(us, fw.Unit{Check: "C13", Kind: "null", Tier: tier, Spec: fw.Spec(c13Spec{})})
 	return us
@@ -123,6 +129,9 @@ func (c13) Run(u fw.Unit) fw.Result {
 	if u.Kind == "null" {
 		c13Null(a)
 		return a.result()
+	}
+	if sp.Case {
+		c13Chars = []string{"%", "_", "a", "A", "."} // one unit per worker process: the package-level alphabet is this unit's
 	}
 	strs := c13Strings(sp.MaxLen)
 	rows := make([]Row, len(strs))
